@@ -22,7 +22,7 @@ use std::num::NonZeroUsize;
 use std::sync::{Arc, Mutex};
 
 const THREADS: [usize; 6] = [1, 2, 3, 4, 8, 16];
-const WATCHDOG_SECS: u64 = 20;
+const WATCHDOG_SECS: u64 = 60;
 /// generation stops after this many watchdog timeouts (each costs `WATCHDOG_SECS`
 /// and leaves a spinning thread behind)
 const MAX_HANGS: u64 = 6;
